@@ -1,7 +1,9 @@
 (* Properties/C07.v — Newton-Raphson: results are near-roots; monotone step to the right of the largest root.
-   Statements only; every proof is `exact` of a lemma of Proofs/Newton.v.  Unless a statement
-   quantifies over the instance, it is about the R instance of the model (exact arithmetic);
-   float behaviour is measured by the correspondence check. *)
+   Statements only; every proof is `exact` of a lemma of Proofs/Newton.v (NewtonMirror.v, NewtonFloat.v).  Unless a
+   statement quantifies over the instance, it is about the R instance of the model (exact arithmetic).
+   Float level: what an Ok answer MEANS on the executed binary64 instance is a theorem (c07_float_sound at the end of
+   this file: float Newton step, finite answer, which exit test fired and its real-number reading); CONVERGENCE in
+   floats is not proved and is measured by the correspondence check and the oracle. *)
 From Coq Require Import ZArith List Reals Lra Lia Bool.
 From Coquelicot Require Import Coquelicot.
 From SV Require Import Base.Num Base.Outcome Model.Poly Model.Solvers Proofs.Bisect Proofs.Newton.
@@ -101,7 +103,8 @@ Print Assumptions c07_zero_root.
    STILL LEFT TO THE ORACLE: an extreme root on the wrong side of the origin or at it - largest root <= 0 approached
    from the right, smallest root >= 0 approached from the left (the iterates then pass or approach 0, where the
    relative step never becomes small and the exit needs an exactly representable/underflowing root) -, general convex
-   targets that are not products of real linear factors, and all float effects. *)
+   targets that are not products of real linear factors, and float CONVERGENCE (rounding in the iteration, overflow
+   F-C07-OVERFLOW).  No longer left to the oracle: float-level soundness of the exit, c07_float_sound below. *)
 Theorem c07_monotone_partial : forall (p : spoly R) r tol cap (s s' : nstate R) b,
   let g := eval_simple p in let g1 := eval_simple (sd p) in let g2 := eval_simple (sd (sd p)) in
   g r = 0 -> (forall t, r < t -> 0 < g t /\ 0 < g1 t) -> (forall t, r <= t -> 0 <= g2 t) ->
@@ -220,3 +223,98 @@ Example c07_nonvacuous_converges_mirror :
                 (-10) 100 (1 / 1000) = Ok x /\
             x <= -4 /\ (-4 - x) * 100 <= 2 * (1 / 1000) * (- x).
 Proof. exact Proofs.NewtonMirror.c07_example_converges_mirror. Qed.
+
+(* ---- the executed binary64 instance: what an Ok answer means (Proofs/NewtonFloat.v) ---------------------------- *)
+From Coq Require Import Floats.
+From Flocq Require Import Core BinarySingleNaN PrimFloat.
+From SV Require Import Proofs.NewtonFloat.
+
+(* EVERY Num instance, targets arbitrary: an Ok answer x is the last Newton step nsub x' (ndiv v d) and the exit test
+   of that loop body fired for one of two reasons, written with the class operations as the model computes them -
+   the root shortcut (x passes the finiteness guard x - x == 0, f x is a zero, and the error 0 is STILL compared with
+   the tolerance) or the relative change |x - x'| / x * 100 (division by the SIGNED x, absolute value afterwards)
+   of an x that is not a zero; if such an x passes the guard, f x evaluated to a non-zero. *)
+Theorem c07_ok_structure : forall (T : Type) (NT : Num T) (f f' : T -> res T) (x0 : T) (cap : nat) (tol x : T),
+  nrm f f' x0 cap tol = Ok x ->
+  exists x' v d, f x' = Ok v /\ f' x' = Ok d /\ x = nsub x' (ndiv v d) /\
+    ( (nfinite x = true /\ (exists w, f x = Ok w /\ neqb w n0 = true) /\ nltb (nabs n0) tol = true)
+   \/ (nneb x n0 = true /\
+       nltb (nabs (nmul (ndiv (nabs (nsub x x')) x) c100)) tol = true /\
+       (nfinite x = true -> exists w, f x = Ok w /\ neqb w n0 = false)) ).
+Proof. exact Proofs.NewtonFloat.nrm_ok_structure. Qed.
+Check c07_ok_structure : forall (T : Type) (NT : Num T) (f f' : T -> res T) (x0 : T) (cap : nat) (tol x : T),
+  nrm f f' x0 cap tol = Ok x ->
+  exists x' v d, f x' = Ok v /\ f' x' = Ok d /\ x = nsub x' (ndiv v d) /\
+    ( (nfinite x = true /\ (exists w, f x = Ok w /\ neqb w n0 = true) /\ nltb (nabs n0) tol = true)
+   \/ (nneb x n0 = true /\
+       nltb (nabs (nmul (ndiv (nabs (nsub x x')) x) c100)) tol = true /\
+       (nfinite x = true -> exists w, f x = Ok w /\ neqb w n0 = false)) ).
+Print Assumptions c07_ok_structure.
+
+(* FLOAT-LEVEL SOUNDNESS OF THE EXIT (binary64, f and f' ARBITRARY float functions - NaN-returning ones included):
+   an Ok answer x is the float Newton step fl(x' - fl(v / d)) from a previous iterate, x is FINITE, the tolerance is
+   not a NaN (it is finite or +infinity), and either
+     - f x is a float zero (B2R = 0; the tolerance is then positive), or
+     - x is not a float zero and the computed relative change e = fl(fl(|fl(x - x')| / x) * 100) - division by the
+       signed x, absolute value taken by the test - is finite with |e| < tol over the reals (for a finite tol), and
+       f x evaluated to a non-zero.
+   Finiteness of x: in the first case it is the model's guard; in the second case the guard is not what gives it
+   (it only protects the evaluation of f) - an infinite or NaN x makes e a NaN (inf/inf), which fails `e.abs() < tol`.
+   NOT proved: convergence in floats, and any bound relating e to the exact relative change (overflow of x - x' or
+   of the multiplication by 100 is excluded by the finiteness of e, rounding errors are not quantified). *)
+Theorem c07_float_sound : forall (f f' : PrimFloat.float -> res PrimFloat.float)
+    (x0 : PrimFloat.float) (cap : nat) (tol x : PrimFloat.float),
+  @nrm PrimFloat.float FNum f f' x0 cap tol = Ok x ->
+  exists x' v d, f x' = Ok v /\ f' x' = Ok d /\
+    x = PrimFloat.sub x' (PrimFloat.div v d) /\
+    is_finite (Prim2B x) = true /\
+    is_nan (Prim2B tol) = false /\
+    ( (exists w, f x = Ok w /\ PrimFloat.eqb w PrimFloat.zero = true /\
+                 is_finite (Prim2B w) = true /\ B2R (Prim2B w) = 0 /\
+                 PrimFloat.ltb (PrimFloat.abs PrimFloat.zero) tol = true /\
+                 (is_finite (Prim2B tol) = true -> 0 < B2R (Prim2B tol)))
+   \/ (let e := PrimFloat.mul (PrimFloat.div (PrimFloat.abs (PrimFloat.sub x x')) x)
+                              (@c100 PrimFloat.float FNum) in
+       PrimFloat.eqb x PrimFloat.zero = false /\ B2R (Prim2B x) <> 0 /\
+       PrimFloat.ltb (PrimFloat.abs e) tol = true /\
+       is_finite (Prim2B e) = true /\
+       (is_finite (Prim2B tol) = true -> Rabs (B2R (Prim2B e)) < B2R (Prim2B tol)) /\
+       (exists w, f x = Ok w /\ PrimFloat.eqb w PrimFloat.zero = false)) ).
+Proof. exact Proofs.NewtonFloat.nrm_float_sound. Qed.
+Check c07_float_sound : forall (f f' : PrimFloat.float -> res PrimFloat.float)
+    (x0 : PrimFloat.float) (cap : nat) (tol x : PrimFloat.float),
+  @nrm PrimFloat.float FNum f f' x0 cap tol = Ok x ->
+  exists x' v d, f x' = Ok v /\ f' x' = Ok d /\
+    x = PrimFloat.sub x' (PrimFloat.div v d) /\
+    is_finite (Prim2B x) = true /\
+    is_nan (Prim2B tol) = false /\
+    ( (exists w, f x = Ok w /\ PrimFloat.eqb w PrimFloat.zero = true /\
+                 is_finite (Prim2B w) = true /\ B2R (Prim2B w) = 0 /\
+                 PrimFloat.ltb (PrimFloat.abs PrimFloat.zero) tol = true /\
+                 (is_finite (Prim2B tol) = true -> 0 < B2R (Prim2B tol)))
+   \/ (let e := PrimFloat.mul (PrimFloat.div (PrimFloat.abs (PrimFloat.sub x x')) x)
+                              (@c100 PrimFloat.float FNum) in
+       PrimFloat.eqb x PrimFloat.zero = false /\ B2R (Prim2B x) <> 0 /\
+       PrimFloat.ltb (PrimFloat.abs e) tol = true /\
+       is_finite (Prim2B e) = true /\
+       (is_finite (Prim2B tol) = true -> Rabs (B2R (Prim2B e)) < B2R (Prim2B tol)) /\
+       (exists w, f x = Ok w /\ PrimFloat.eqb w PrimFloat.zero = false)) ).
+Print Assumptions c07_float_sound.
+
+(* the constant 100.0 of the relative change is exactly 100 *)
+Theorem c07_float_c100 :
+  B2R (Prim2B (@c100 PrimFloat.float FNum)) = 100 /\ is_finite (Prim2B (@c100 PrimFloat.float FNum)) = true.
+Proof. exact Proofs.NewtonFloat.FR_c100. Qed.
+Check c07_float_c100 :
+  B2R (Prim2B (@c100 PrimFloat.float FNum)) = 100 /\ is_finite (Prim2B (@c100 PrimFloat.float FNum)) = true.
+Print Assumptions c07_float_c100.
+
+(* non-vacuity of c07_float_sound, computed on the float instance: x*x - 2 with derivative 2x from 1, cap 50,
+   tol = fl(1e-10) percent returns Ok 0x1.6a09e667f3bccp+0 (one ulp below fl(sqrt 2) = 0x1.6a09e667f3bcdp+0), through
+   the relative-change exit (the residual there is not a float zero) *)
+Example c07_float_nonvacuous :
+  @nrm PrimFloat.float FNum exn_f exn_f' 0x1p+0%float 50 0x1.b7cdfd9d7bdbbp-34%float = Ok 0x1.6a09e667f3bccp+0%float.
+Proof. exact Proofs.NewtonFloat.nrm_float_example. Qed.
+Example c07_float_nonvacuous_exit :
+  exists w, exn_f 0x1.6a09e667f3bccp+0%float = Ok w /\ PrimFloat.eqb w PrimFloat.zero = false.
+Proof. exact Proofs.NewtonFloat.nrm_float_example_exit. Qed.
